@@ -748,7 +748,13 @@ func (c *Conn) readRecordOrCCS(expectChangeCipherSpec bool) error {
 			switch data[0] {
 			case alertLevelWarning:
 				c.rawInputBuf = nil
-				return c.retryReadRecord(expectChangeCipherSpec)
+				// 计数后继续本循环，而不是递归进入 readRecordOrCCS：递归的每一层都重新计算
+				// handLenAtEntry（绕过 handBuf 的增长限制），且握手记录会把 retryCount 清零，
+				// 递归深度因此没有上限。
+				if err := c.countUselessRecord(); err != nil {
+					return err
+				}
+				continue
 			case alertLevelError:
 				return c.in.setErrorLocked(&net.OpError{Op: "remote error", Err: alert(data[1])})
 			default:
@@ -846,14 +852,14 @@ func (c *Conn) readRecordOrCCS(expectChangeCipherSpec bool) error {
 	}
 }
 
-// retryReadRecord 递归进入 readRecordOrCCS 以丢弃非推进记录。
-func (c *Conn) retryReadRecord(expectChangeCipherSpec bool) error {
+// countUselessRecord 为一条被忽略的（非推进）记录计数，超过上限则终止连接。
+func (c *Conn) countUselessRecord() error {
 	c.retryCount++
 	if c.retryCount > maxUselessRecords {
 		c.sendAlert(alertUnexpectedMessage)
 		return c.in.setErrorLocked(errors.New("dtlcp: too many ignored records"))
 	}
-	return c.readRecordOrCCS(expectChangeCipherSpec)
+	return nil
 }
 
 // =============================================================================
